@@ -23,27 +23,33 @@ TInit == /\ TLCSet(1, {}) /\ TLCSet(2, {})
 LoggedState(ev) == [s |-> ev.s, cnt |-> ev.cnt]
 LoggedOut(ev) == [obs |-> ev.obs, rew |-> ev.rew, term |-> ev.term, trunc |-> ev.trunc]
 
+\* total verdicts: a logged state outside the model's state space (possible when the code under test is broken) is a failing
+\* clause, not an evaluation error - every other clause is guarded by it
+WF(ev) == ev.s \in 1..(cfg.nS + 1) /\ Len(ev.cnt) = M!Depth /\ \A i \in 1..Len(ev.cnt) : ev.cnt[i] \in Nat
 Clauses(ev) ==
-  LET ls == LoggedState(ev) IN
+  LET ls == LoggedState(ev) wf == WF(ev) IN
   IF ev.ev = "at"          \* spec -> code edge cover: the harness placed the real object in a state TLC reported reachable
   THEN [PlacedStateIsWellFormed |-> ev.s \in 1..cfg.nS /\ Len(ev.cnt) = M!Depth]
   ELSE IF ev.ev = "reset"
-  THEN [ResetStateIsInitial  |-> M!IsInitialState(ls),
-        ResetObsIsOwn        |-> ev.obs = M!WObs(ls)]
+  THEN [LoggedStateIsAStateOfTheModel |-> wf,
+        ResetStateIsInitial  |-> wf /\ M!IsInitialState(ls),
+        ResetObsIsOwn        |-> wf /\ ev.obs = M!WObs(ls)]
   ELSE IF ev.ev = "gxstep"      \* a Gymnax-style step: termination and truncation arrive merged as `done' (ev.term)
   THEN LET o == M!StepOut(st, ev.a) done == o.term \/ o.trunc IN
-       [RewardOfTransitionTaken |-> ev.rew = o.rew,
+       [LoggedStateIsAStateOfTheModel |-> wf,
+        RewardOfTransitionTaken |-> ev.rew = o.rew,
         DoneIsTermOrTrunc       |-> ev.term = done,
-        FreshStateWhenDone      |-> done => M!IsInitialState(ls),
-        SuccessorOtherwise      |-> (~done) => ls = o.nx,
-        ObsIsOfReturnedState    |-> ev.obs = M!WObs(ls)]
+        FreshStateWhenDone      |-> wf /\ (done => M!IsInitialState(ls)),
+        SuccessorOtherwise      |-> wf /\ ((~done) => ls = o.nx),
+        ObsIsOfReturnedState    |-> wf /\ ev.obs = M!WObs(ls)]
   ELSE LET o == M!StepOut(st, ev.a) done == o.term \/ o.trunc IN
-       [RewardOfTransitionTaken |-> ev.rew = o.rew,
+       [LoggedStateIsAStateOfTheModel |-> wf,
+        RewardOfTransitionTaken |-> ev.rew = o.rew,
         TerminalOfSuccessor     |-> ev.term = o.term,
         TruncatedOfSuccessor    |-> ev.trunc = o.trunc,
-        FreshStateWhenDone      |-> done => M!IsInitialState(ls),
-        SuccessorOtherwise      |-> (~done) => ls = o.nx,
-        ObsIsOfReturnedState    |-> ev.obs = M!WObs(ls)]
+        FreshStateWhenDone      |-> wf /\ (done => M!IsInitialState(ls)),
+        SuccessorOtherwise      |-> wf /\ ((~done) => ls = o.nx),
+        ObsIsOfReturnedState    |-> wf /\ ev.obs = M!WObs(ls)]
 Failed(ev) == LET c == Clauses(ev) IN {n \in DOMAIN c : ~c[n]}
 
 TPlace == /\ l >= 1 /\ l <= Len(Tr) /\ Tr[l].ev = "at" /\ Failed(Tr[l]) = {}
